@@ -4,6 +4,7 @@
 import Driver.Wire
 import ErgoModel.Json
 import ErgoModel.Path
+import ErgoModel.Url
 import ErgoModel.Render
 open Lean Ergo Ergo.Wire Ergo.Storage
 
@@ -117,6 +118,7 @@ def handle (j : Json) : Json :=
       | .absolute => "absolute" | .outside => "outside" | .inErgo => "in_ergo" | .missing => "missing" | .notFile => "not_file" | .access => "access"
     Json.mkObj [("clean", sOut (Ergo.Path.clean p)), ("dir", sOut (Ergo.Path.dir p)), ("base", sOut (Ergo.Path.base p)),
       ("abs", Ergo.Path.isAbs p), ("join", sOut (Ergo.Path.join [repo, p])),
+      ("file_url", Json.str (String.ofList ((Ergo.Url.fileURL repo p).map fun b => Char.ofNat b.toNat))),
       ("validate", match Ergo.Path.validateResultPath kindAt repo p with
         | .ok c => Json.mkObj [("ok", sOut c)] | .error e => Json.mkObj [("err", perr e)]),
       ("resolve", match Ergo.Path.resolveErgoDir fs cwd (cpsOf "start") with
